@@ -59,7 +59,7 @@ def site_akey(ev, resource):
     """what the site does, independent of the names of locals: callee, effect kind, file class"""
     n = ev.extra.get("site_node")
     callee = norm(n.func) if isinstance(n, ast.Call) else ev.prim
-    return f"{callee} {ev.kind} {resource}"
+    return (f"{callee} {ev.kind} {resource}", f"{ev.kind} {resource}")
 
 
 def site_func(ev):
